@@ -3,6 +3,7 @@ import HcModel.Drv.Pair
 import HcModel.Drv.Http
 import HcModel.Drv.Storage
 import HcModel.Drv.Spec
+import HcModel.Drv.Notify
 import HcModel.Drv.ConnWrite
 import HcModel.Drv.ConnRead
 import HcModel.Drv.Characteristic
@@ -30,6 +31,7 @@ def step (line : String) : String :=
   | "pin" :: rest => Hc.Drv.PinXhm.handlePin rest
   | "xhm" :: rest => Hc.Drv.PinXhm.handleXhm rest
   | "config" :: rest => Hc.Drv.Config.handle rest
+  | "notify" :: rest => Hc.Drv.Notify.handle rest
   | "spec" :: rest => Hc.Drv.Spec.handle rest
   | "storage" :: rest => Hc.Drv.Storage.handle rest
   | "fs" :: rest => Hc.Drv.Storage.handleFs rest
